@@ -111,7 +111,9 @@ def run_k_obligations(prop, obls, tier, jobs):
         cdir = registry.CRATES[crate]["dir"]
         t0 = time.time()
         try:
-            m, secs = K.codegen(cdir, crate, os.path.join(BUILD, "logs", prop, "codegen-%s.log" % crate))
+            m, secs = K.codegen(cdir, crate + "-" + prop, os.path.join(BUILD, "logs", prop, "codegen-%s.log" % crate),
+                                registry.CRATES[crate].get("kani_args", []) +
+                                sum([["--harness", x] for x in sorted({o["harness"].split("::")[0] + "::" for o in lst})], []))
         except Exception as e:
             log("INCONCLUSIVE: codegen of %s failed: %s" % (crate, str(e)[-1500:]))
             for o in lst:
@@ -263,6 +265,8 @@ def main():
     if other:
         import engine_m
         for o in other:
+            o = dict(o)
+            o.setdefault("harness", o["name"])
             results.append(engine_m.run_obligation(prop, o, log))
     if k_obls:
         results += run_k_obligations(prop, k_obls, tier, a.jobs)
